@@ -35,6 +35,10 @@ NUMSTRS = ["", " ", "0", "1", "1.0", " 1 ", "\t1\n", "1e2", "1e", "1e+", ".5", "
            "-", "+", ".", "e5", "1e5", "-1", "+1", "-0", "00", "007", "1_0", "0x", "0b2", "0o8", " \n", "﻿1", "\u00851",
            " 1　", "１", "1 2", "- 1", "9007199254740993", "1e400", "-1e400", "1e-400", "0x1fffffffffffff8",
            "0x20000000000001", "0x20000000000003", "1e21", "3.14abc", "Infinityx", "  -12.5e1xyz", "16", "255"]
+NUMSTRS += ["0x2000000000000101", "0x10000000000000801", "0x1fffffffffffff7f", "0x3fffffffffffff", "0x7ffffffffffffbff", "0xfffffffffffff7ff", "0x20000000000001ff", "0x20000000000002ff",
+            "0b" + "1" * 54 + "01", "0b1" + "0" * 52 + "101", "0o400000000000000005", "0o1000000000000000021", "0x" + "f" * 300, "0x1" + "0" * 255, "0x" + "8" * 257,
+            "9007199254740993", "9007199254740995", "18014398509481985", "1.00000000000000011102230246251565404236316680908203125", "4.9e-324", "2.4703282292062327e-324", "2.4703282292062328e-324",
+            "1.7976931348623158e308", "1.7976931348623159e308", "179769313486231580793728971405303415079934132710037826936173778980444968292764750946649017977587207096330286416692887910946555547851940402630657488671505820681908902000708383676273854845817711531764475730270069855571366959622842914819860834936475292719074168444365510704342711559699508093042880177904174497791.999"]
 STRS = ["abc", "a", "b", "A", "null", "true", "false", "[object Object]", "1,2", ",", "é", "éa", "€", "😀", "a😀b", "zz", "10", "9",
         "a.b", "a\\.b", "undefined"]
 ARRS = [[], [0], [1], [[]], [None], [1, 2], ["a", "b"], [[1, 2], [3]], [1.5], [{}], ["1"], [" 1 "], [True], [[1]], ["a"], [None, None],
